@@ -7,3 +7,4 @@ pub mod archive;
 pub mod eng_layers;
 pub mod eng_writer;
 pub mod eng_repair;
+pub mod eng_reader;
